@@ -291,4 +291,49 @@ example : (renew (run St.init [.tokCreate 14400 0 true 0, .reg 0 3600 7200 true 
 example : (run St.init [.crashRestart [⟨7, false, 0, 0, some 100, 60, 0, 0, true, false, false, 0, false⟩] 5]).pending = [7] := by
   decide
 
+/-! ### deleting a namespace -/
+
+/-- **Deleting a namespace revokes what it leased**: with a backend that accepts revocations, every secret lease of the
+deleted namespace has been revoked at its backend when the deletion returns (and its entry is gone from storage). -/
+theorem ns_delete_revokes_leases (s : St) (ns : Nat) (hf : s.fail = .none) (s' : St)
+    (h : nsDelete s ns = (s', .ok)) : ∀ l ∈ nsLeases s ns, l.id ∈ s'.revoked := by
+  unfold nsDelete at h
+  split at h
+  · cases h
+  · injection h with h _
+    subst h
+    have key : ∀ (ls : List Lease) (s0 : St), s0.fail = .none →
+        (∀ l ∈ ls, l.id ∈ (ls.foldl (fun s l => untrack (delLease (backendRevoke s l.id).2 l.id) l.id) s0).revoked) ∧
+        (∀ x ∈ s0.revoked, x ∈ (ls.foldl (fun s l => untrack (delLease (backendRevoke s l.id).2 l.id) l.id) s0).revoked) := by
+      intro ls
+      induction ls with
+      | nil => intro s0 _; exact ⟨fun l hl => absurd hl (List.not_mem_nil), fun x hx => hx⟩
+      | cons a t ih =>
+        intro s0 hf0
+        simp only [List.foldl_cons]
+        have hstep : (untrack (delLease (backendRevoke s0 a.id).2 a.id) a.id).fail = .none ∧
+            (∀ x, x ∈ s0.revoked ∨ x = a.id → x ∈ (untrack (delLease (backendRevoke s0 a.id).2 a.id) a.id).revoked) := by
+          have e1 : (backendRevoke s0 a.id).2 = { s0 with calls := s0.calls + 1, revoked := s0.revoked ++ [a.id] } := by
+            unfold backendRevoke
+            simp only [hf0]
+          rw [e1]
+          refine ⟨hf0, fun x hx => ?_⟩
+          show x ∈ s0.revoked ++ [a.id]
+          rcases hx with hx | rfl
+          · exact List.mem_append_left _ hx
+          · exact List.mem_append_right _ (List.mem_singleton.mpr rfl)
+        obtain ⟨i1, i2⟩ := ih _ hstep.1
+        refine ⟨fun l hl => ?_, fun x hx => i2 x (hstep.2 x (Or.inl hx))⟩
+        rcases List.mem_cons.mp hl with rfl | hl
+        · exact i2 _ (hstep.2 _ (Or.inr rfl))
+        · exact i1 l hl
+    exact (key _ s hf).1
+
+/-- **Finding F90 (repaired)**: with the namespace's `sys/` view (its lease entries) wiped before the other mounts are
+unmounted, the leases vanish from storage and nothing is revoked. -/
+theorem ns_delete_wipe_first_cex :
+    let s := run St.init [.nsReg 1 3600 7200 true 1, .nsReg 1 600 3600 true 2]
+    (nsDeleteWipeFirst s 1).revoked = [] ∧ (nsDeleteWipeFirst s 1).stored = [] ∧ (nsDelete s 1).1.revoked = [0, 1] := by
+  decide
+
 end C05b
